@@ -20,8 +20,9 @@ mod tables;
 mod util;
 
 fn main() {
-    // panics are outcomes here: silence the default hook
-    std::panic::set_hook(Box::new(|_| {}));
+    // panics are outcomes here: the default hook is replaced; the message is kept with the captured
+    // log records (what a panic prints is an emission of the server like any other)
+    std::panic::set_hook(Box::new(|info| server::record_panic(info.to_string())));
 
     let args: Vec<String> = std::env::args().collect();
     if args.len() < 2 {
@@ -99,6 +100,7 @@ fn dispatch(st: &mut State, line: &str) -> String {
     match cmd {
         "fb" => codec::cmd_fb(rest),
         "build" => codec::cmd_build(rest),
+        "buildcont" => codec::cmd_buildcont(rest),
         "padlen" => codec::cmd_padlen(rest),
         "merkle" => merkle::cmd_merkle(rest),
         "mroot" => merkle::cmd_mroot(rest),
